@@ -192,3 +192,92 @@ def warm_up():
                 run_cli(["--no-multiprocessing"] + args if args[0] not in ("annotate", "convert-dep5", "supported-licenses") else args, root)
     finally:
         urllib.request.urlopen = orig
+
+
+def run_bounded_batch(fn, items, limit, max_timeouts=None):
+    """[fn(item) for item in items], computed in forked children with `limit` seconds per item: like `run_bounded`, but one child
+    works through many items (a fork per item costs more than most items do) and hands every result back as soon as it has it.
+    When an item does not come back in time the child is killed, that item's result is "timeout:<limit>", and a new child
+    carries on with the next item.  After `max_timeouts` kills (if given) the remaining items are not run: their result is
+    "skipped"."""
+    import select
+    import signal
+    import struct
+    import sys
+    import time
+
+    global SCRATCH_BASE
+    results = []
+    kills = 0
+    while len(results) < len(items):
+        if max_timeouts is not None and kills >= max_timeouts:
+            results.extend(["skipped"] * (len(items) - len(results)))
+            break
+        start = len(results)
+        sys.stdout.flush()
+        sys.stderr.flush()
+        base = tempfile.mkdtemp(prefix="rv-bounded-", dir=SCRATCH_BASE)
+        r, w = os.pipe()
+        pid = os.fork()
+        if pid == 0:  # child
+            status = 0
+            try:
+                os.close(r)
+                os.setpgid(0, 0)
+                SCRATCH_BASE = base
+                tempfile.tempdir = base
+                for item in items[start:]:
+                    try:
+                        out = fn(item)
+                    except BaseException as e:  # noqa
+                        out = "EXC:%s:%s" % (type(e).__name__, str(e)[:120])
+                    data = out.encode("utf-8", "surrogatepass")
+                    data = struct.pack(">Q", len(data)) + data
+                    while data:
+                        n = os.write(w, data)
+                        data = data[n:]
+            except BaseException:  # noqa
+                status = 3
+            finally:
+                os._exit(status)
+        os.close(w)
+        buf = b""
+        hung = False
+        try:
+            deadline = time.time() + limit
+            while len(results) < len(items):
+                # a complete frame?
+                if len(buf) >= 8:
+                    n = struct.unpack(">Q", buf[:8])[0]
+                    if len(buf) >= 8 + n:
+                        results.append(buf[8:8 + n].decode("utf-8", "surrogatepass"))
+                        buf = buf[8 + n:]
+                        deadline = time.time() + limit
+                        continue
+                left = deadline - time.time()
+                ready = select.select([r], [], [], max(left, 0))[0] if left > 0 else []
+                if not ready:
+                    hung = True
+                    break
+                b = os.read(r, 1 << 16)
+                if not b:  # the child died without finishing its list (killed from outside, out of memory …)
+                    if len(results) < len(items):
+                        results.append("EXC:ChildDied:the child process ended without a result")
+                    break
+                buf += b
+        finally:
+            os.close(r)
+            for target in (-pid, pid):
+                try:
+                    os.kill(target, signal.SIGKILL)
+                except OSError:
+                    pass
+            try:
+                os.waitpid(pid, 0)
+            except OSError:
+                pass
+            shutil.rmtree(base, ignore_errors=True)
+        if hung:
+            results.append("timeout:%g" % limit)
+            kills += 1
+    return results
